@@ -82,6 +82,6 @@ def run(tier, replay=None):
         rp = c.replay_file("generic_%s.rs" % k.replace(" ", "_")[:40], open(src).read())
         c.violation(k, "%d supported generic definitions are rejected (%s); first: %s -- %s" % (len(lst), k, short.replace("\n", " "), (diags[0]["message"] or "")[:200] if diags else ""), rp)
     c.cov["exhaustive"] = not thorough
-    c.cov["rule"] = "every definition of the grammar of MC_Generic (1-2 parameters x 21 usage templates incl. associated types, self references, skipped members, x %s of the modifiers lifetime / two lifetimes with an outlives bound / const parameter / default / inline bound / where-clause / skip_type_params / bounds(..) / enum / tuple struct / attribute lists in reverse order / crate = ::sinfo with the library linked under that name only), instantiated so that exactly the premise holds (skipped parameters and skipped member types have NO TypeInfo), each compiled on its own by rustc; a sample is also run" % ("pairs" if thorough else "each one")
+    c.cov["rule"] = "every definition of the grammar of MC_Generic (1-2 parameters x 21 usage templates incl. associated types, self references, skipped members, x %s of the modifiers lifetime / two lifetimes with an outlives bound / const parameter / default / inline bound / where-clause / skip_type_params / bounds(..) / enum / tuple struct / attribute lists in reverse order / every parameter skipped incl. those in the encoding / crate = ::sinfo with the library linked under that name only), instantiated so that exactly the premise holds (skipped parameters and skipped member types have NO TypeInfo), each compiled on its own by rustc; a sample is also run" % ("pairs" if thorough else "each one")
     c.assumptions += ["the entailment model (Predicted) only classifies; rustc is the oracle", "generic #[codec(compact)] and generic mutual recursion between two derived types are outside the grammar (README / ui tests document bounds(..) as the remedy)"]
     return c.finish()
